@@ -37,7 +37,7 @@ Classify(cfg, o, w) ==
     [] w.c \in CompletionClauses /\ (Sub(o, w.e) \cap EvOf(AbandonedC(o))) # {}       -> "F5"
     [] w.c = "C15.hang" /\ \E p \in StrandedR(cfg, o) : p[1] = w.b           -> "F2"
     [] w.c = "C15.hang" /\ \E p \in AbandonedC(o) : p[1] = w.b               -> "F5"
-    [] w.c \in {"C03.hang", "C03.not_completed"} /\ SomeBounded(cfg) /\
+    [] w.c \in {"C03.hang", "C03.not_completed", "C03.incomplete", "C04.incomplete"} /\ w.k \in {"", "completed", "processed"} /\ SomeBounded(cfg) /\
        \E d \in Sub(o, w.e) : ~o.snap[d].sig /\ ResDone(o.snap[d]) /\ InNoHistory(o, d) -> "F11"
     [] OTHER                                                                 -> ""
 =============================================================================
